@@ -449,11 +449,14 @@ func (m *Uint64Map) EachItem(f func(id uint64, tagged []Tagged, goroutine int) e
 	for i := 0; i < goroutines; i++ {
 		go readBuckets(i)
 	}
+feed:
 	for bucket := 0; bucket < m.Layout.SentinelBucket(); bucket++ {
 		select {
 		case buckets <- bucket:
 		case <-cancel:
-			break
+			// A callback failed: stop feeding buckets. A bare break would only
+			// leave the select, and block forever once every reader has exited.
+			break feed
 		}
 	}
 	close(buckets)
